@@ -204,6 +204,7 @@ func (c15) Run(c *engine.Case) *engine.Result {
 	for _, seed := range []int{1, 5} {
 		seams.SetMapSeed(seed)
 		for _, v := range vals {
+			engine.HeartbeatCheap()
 			res.States++
 			gval := s.build(v).Interface()
 			want, convertible := s.refConv(v, 0)
